@@ -404,7 +404,7 @@ class Run:
         return 0
 
 
-def differential(run, name, ops, go_exe, component, env_extra=None, keep=False, harness_run="TestVerifHarness"):
+def differential(run, name, ops, go_exe, component, env_extra=None, keep=False, harness_run="TestVerifHarness", timeout=600):
     """Runs ops (list of lines) through the Go harness and the Lean driver.
     Returns (go_lines, lean_lines, diff_index or None, error string or None)."""
     d = workdir("diff-%s-%s" % (run.prop, name))
@@ -412,7 +412,7 @@ def differential(run, name, ops, go_exe, component, env_extra=None, keep=False, 
     with open(opsf, "w") as f:
         f.write("\n".join(ops) + "\n")
     gof, leanf = os.path.join(d, "go.out"), os.path.join(d, "lean.out")
-    rc, out = run_harness(go_exe, opsf, gof, env_extra=env_extra)
+    rc, out = run_harness(go_exe, opsf, gof, env_extra=env_extra, timeout=timeout)
     err = None
     if rc != 0:
         err = "go harness exit %d: %s" % (rc, out[-2000:])
